@@ -29,6 +29,17 @@ def to_smt(ob, bg):
     return s.to_smt2()
 
 
+_hcache = {}
+
+
+def hyp_hash(h):
+    k = h.get_id()
+    if k not in _hcache:
+        import re
+        _hcache[k] = hashlib.sha1(re.sub(r"![0-9]+", "!", h.sexpr()).encode()).hexdigest()[:12]
+    return _hcache[k]
+
+
 def load_hints():
     try:
         return json.load(open(HINTS_PATH))
@@ -57,8 +68,12 @@ def discharge(obls, timeout_ms=20000, seed=0, retries=((60000, 1),), use_cvc5=Tr
         ob.smt = to_smt(ob, ob.bg)
         ob.nhyp = len(ob.bg) + len(ob.hyps)
     # 1. hinted attempt
-    hinted = [ob for ob in obls if ob.key in hints and ob.kind != "canary" and hints[ob.key].get("n") == ob.nhyp]
-    res = list(p.map(worker.run, [(ob.smt, 8000, seed, "hint", hints[ob.key]["core"]) for ob in hinted], chunksize=1))
+    hinted = [ob for ob in obls if ob.key in hints and ob.kind != "canary"]
+    for ob in hinted:
+        hs = set(hints[ob.key])
+        ob.hashes = [hyp_hash(h) for h in list(ob.bg) + list(ob.hyps)]
+        ob.subset = [i for i, x in enumerate(ob.hashes) if x in hs]
+    res = list(p.map(worker.run, [(ob.smt, 8000, seed, "hint", ob.subset) for ob in hinted], chunksize=1))
     done = set()
     for ob, (st, t, why) in zip(hinted, res):
         ob.time += t
@@ -110,7 +125,8 @@ def learn_hints(obls, hints, seed=0):
     res = list(p.map(worker.run, [(ob.smt, 60000, seed, "core") for ob in cand], chunksize=1))
     for ob, (st, t, core) in zip(cand, res):
         if st == "unsat":
-            hints[ob.key] = {"n": ob.nhyp, "core": core}
+            H = list(ob.bg) + list(ob.hyps)
+            hints[ob.key] = sorted(set(hyp_hash(H[i]) for i in core))
     tmp = HINTS_PATH + ".tmp"
     json.dump(hints, open(tmp, "w"), indent=0, sort_keys=True)
     os.replace(tmp, HINTS_PATH)
